@@ -78,8 +78,43 @@ def fpathOp : Handler := fun args =>
   Json.mkObj [("clean", clean a), ("join", join a b), ("dir", dir a), ("abs", Json.bool (isAbs a)),
     ("rel", match rel a b with | some r => Json.str r | none => Json.null)]
 
+/-- `dotenv.GetEnvFromFile(cur, names)` on a directory tree: the model loop in the driver world's file system -/
+def envFromFileOp : Handler := fun args =>
+  let D := fsOf args
+  outJson (fun (e : Env) => Json.mkObj (e.map fun kv => (kv.1, Json.str kv.2)))
+    (getEnvFromFile (envWorldOf D) (envOf args "cur") (getStrList args "names"))
+
+def optFlagNames : List String :=
+  ["SkipValidation", "SkipInterpolation", "SkipNormalization", "ResolvePaths", "ConvertWindowsPaths",
+   "SkipConsistencyCheck", "SkipExtends", "SkipInclude", "SkipResolveEnvironment", "SkipDefaultValues",
+   "discardEnvFiles", "projectNameImperativelySet"]
+
+/-- `Options.clone()`: build the option set, clone it, read every field back -/
+def cloneOptionsOp : Handler := fun args =>
+  let fl := getObj args "flags"
+  let b := fun k => getBool fl k
+  let o : Opts :=
+    { skipValidation := b "SkipValidation", skipInterpolation := b "SkipInterpolation",
+      skipNormalization := b "SkipNormalization", resolvePaths := b "ResolvePaths",
+      convertWindowsPaths := b "ConvertWindowsPaths", skipConsistencyCheck := b "SkipConsistencyCheck",
+      skipExtends := b "SkipExtends", skipInclude := b "SkipInclude",
+      skipResolveEnvironment := b "SkipResolveEnvironment", skipDefaultValues := b "SkipDefaultValues",
+      discardEnvFiles := b "discardEnvFiles", projectNameImperativelySet := b "projectNameImperativelySet",
+      projectName := getStr args "project_name", profiles := getStrList args "profiles",
+      interpolate := 1, resourceLoaders := 2, knownExtensions := 3, listeners := 4 }
+  let c := o.clone
+  Json.mkObj [
+    ("flags", Json.mkObj (optFlagNames.filterMap fun n => (c.flag n).map fun v => (n, Json.bool v))),
+    ("project_name", c.projectName),
+    ("profiles", Json.arr (c.profiles.map Json.str).toArray),
+    ("refs", Json.mkObj [("Interpolate", Json.bool (c.interpolate == o.interpolate)),
+      ("KnownExtensions", Json.bool (c.knownExtensions == o.knownExtensions)),
+      ("Listeners", Json.bool (c.listeners == o.listeners)),
+      ("ResourceLoaders", Json.bool (c.resourceLoaders == o.resourceLoaders))])]
+
 def handlers : List (String × Handler) :=
   [("applyInclude", applyIncludeOp), ("importResources", importResourcesOp),
-   ("includeConfig", includeConfigOp), ("fpath", fpathOp)]
+   ("includeConfig", includeConfigOp), ("fpath", fpathOp),
+   ("envFromFile", envFromFileOp), ("cloneOptions", cloneOptionsOp)]
 
 end CV.Ops.C06
